@@ -27,7 +27,9 @@ type c19Case struct {
 	Seed      int64
 }
 
-var c19Placements = []string{"sub35", "negorigin", "stride", "poison00", "poisonFF", "generic", "genericRGBA", "genericNRGBA64", "longpix", "subodd"}
+var c19Placements = []string{"sub35", "negorigin", "stride", "poison00", "poisonFF", "generic", "genericRGBA", "genericNRGBA64", "longpix", "subodd",
+	// the same wrappers and *image.RGBA over pictures whose bounds do not start at (0,0)
+	"genericSub", "genericNeg", "genericRGBASub", "genericNRGBA64Neg", "rgbaSub", "rgbaNeg"}
 
 type atNRGBA struct{ img *image.NRGBA }
 
@@ -102,6 +104,40 @@ func place(src *image.NRGBA, how string) (img image.Image, parent *image.NRGBA) 
 		}
 		copy(d.Pix, src.Pix[:w*4*h])
 		return d, d
+	case "genericSub":
+		v, par := embed(w+8, h+11, 3, 5, 0, false)
+		return atNRGBA{v}, par
+	case "genericNeg":
+		d := image.NewNRGBA(image.Rect(-7, -3, -7+w, -3+h))
+		copy(d.Pix, src.Pix)
+		return atNRGBA{d}, d
+	case "genericRGBASub":
+		v, par := embed(w+8, h+11, 3, 5, 0xff, true)
+		return atRGBA{v}, par
+	case "genericNRGBA64Neg":
+		d := image.NewNRGBA(image.Rect(-7, -3, -7+w, -3+h))
+		copy(d.Pix, src.Pix)
+		return atNRGBA64{d}, d
+	case "rgbaSub", "rgbaNeg":
+		// *image.RGBA (opaque pictures only: premultiplied = straight) as a view into a
+		// larger buffer / at a negative origin
+		var d *image.RGBA
+		if how == "rgbaSub" {
+			par := image.NewRGBA(image.Rect(0, 0, w+8, h+11))
+			for i := range par.Pix {
+				par.Pix[i] = byte(i*29 + 3)
+			}
+			d = par.SubImage(image.Rect(3, 5, 3+w, 5+h)).(*image.RGBA)
+		} else {
+			d = image.NewRGBA(image.Rect(-7, -3, -7+w, -3+h))
+		}
+		for y := 0; y < h; y++ {
+			for x := 0; x < w; x++ {
+				c := src.NRGBAAt(x, y)
+				d.SetRGBA(d.Rect.Min.X+x, d.Rect.Min.Y+y, color.RGBA{c.R, c.G, c.B, 255})
+			}
+		}
+		return d, nil
 	case "generic":
 		return atNRGBA{src}, src
 	case "genericRGBA":
@@ -129,7 +165,14 @@ func (cs *c19Case) opts() *webp.EncoderOptions {
 }
 
 func (cs *c19Case) run() string {
-	if (cs.Placement == "genericRGBA" || cs.Placement == "genericNRGBA64") && cs.Alpha != "opaque" {
+	switch cs.Placement {
+	case "genericRGBA", "genericNRGBA64", "genericRGBASub", "genericNRGBA64Neg", "rgbaSub", "rgbaNeg":
+		if cs.Alpha != "opaque" {
+			// only for opaque pictures are these "the same colours" exactly (DESIGN.md C19 (8))
+			return ""
+		}
+	}
+	if false {
 		// only for opaque pictures are these "the same colours" exactly (DESIGN.md C19 (8))
 		return ""
 	}
@@ -168,7 +211,7 @@ func (cs *c19Case) run() string {
 
 func init() {
 	registerCases[c19Case]("C19", "exploration",
-		"full product of picture (size x content x alpha class) x storage placement (sub-image, odd sub-image, negative origin, stride padding, parent poisoned 0x00/0xFF, generic NRGBA/RGBA/NRGBA64 wrappers, over-long Pix) x codec x Exact x sharp YUV x dithering x Method; every placement's bytes are compared with the plain NRGBA-at-origin encoding and the caller's buffer is checksummed",
+		"full product of picture (size x content x alpha class) x storage placement (sub-image, odd sub-image, negative origin, stride padding, parent poisoned 0x00/0xFF, generic NRGBA/RGBA/NRGBA64 wrappers and *image.RGBA at the origin, as sub-image views and at negative origins, over-long Pix) x codec x Exact x sharp YUV x dithering x Method; every placement's bytes are compared with the plain NRGBA-at-origin encoding and the caller's buffer is checksummed",
 		[]string{"worker count pinned to 1, pools never reuse"},
 		nil,
 		func(e *fw.Env) func(c *choice.Ctx) caseI {
